@@ -40,6 +40,19 @@ class World:
     def advance(self, to=None, at_least=False):
         k = next(self.n)
         t = self.ctx.real(f'adv{k}')
+        if self.ctx.concrete is not None:
+            # concrete re-execution (replays): take the recorded instant, clamped to what the model allows
+            if f'adv{k}' not in self.ctx.concrete:
+                t = float(self.now) if to is None else max(float(self.now), float(to))
+            elif to is None:
+                t = max(t, float(self.now))
+            elif at_least or self.jitter:
+                t = max(t, float(self.now), float(to))
+            else:
+                t = float(to)
+            self.now = t
+            self.instants.append(t)
+            return t
         if to is None:
             self.ctx.assume(t.e >= self.now.e)
         elif at_least or self.jitter:
@@ -168,6 +181,8 @@ class FakeCond:
 
 
 def symx_max(a, b):
+    if not isinstance(a, (SymReal, symx.SymInt)) and not isinstance(b, (SymReal, symx.SymInt)):
+        return max(a, b)
     ta, tb = symx._real(symx._t(a)), symx._real(symx._t(b))
     return SymReal(z3.If(ta >= tb, ta, tb))
 
